@@ -96,9 +96,9 @@ class UNCERTAINTY(TREElement):
 
 
 class PARAMETER(TREElement):
-    def __init__(self, value):
+    def __init__(self, value, parameter_size):
         super(PARAMETER, self).__init__()
-        self.add_field('PARAMETER_VALUE', 'b', self.PARAMETER_SIZE, value)
+        self.add_field('PARAMETER_VALUE', 'b', parameter_size, value)
 
 
 class ADDITIONAL_PARAMETER(TREElement):
@@ -107,7 +107,7 @@ class ADDITIONAL_PARAMETER(TREElement):
         self.add_field('PARAMETER_NAME', 's', 25, value)
         self.add_field('PARAMETER_SIZE', 's', 3, value)
         self.add_field('PARAMETER_COUNT', 'd', 4, value)
-        self.add_loop('PARAMETERs', self.PARAMETER_COUNT, PARAMETER, value)
+        self.add_loop('PARAMETERs', self.PARAMETER_COUNT, PARAMETER, value, int(self.PARAMETER_SIZE))
 
 
 class SENSRBType(TREElement):
